@@ -48,28 +48,61 @@ def uf_table(values):
     return get
 
 
-def range_instances(terms):
-    """Instances of the element-range axioms for every `Select(arr, i)` over a registered array occurring in `terms`."""
-    out, seen, todo = [], set(), list(terms)
+_RI_CACHE = {}     # term id -> (term kept alive, [instances in that term])
+
+
+def _instances_of(t):
+    """instances of range / table axioms contributed by the sub-terms of t (memoised per term)"""
+    k = t.get_id()
+    hit = _RI_CACHE.get(k)
+    if hit is not None:
+        return hit[1]
+    out = []
+    seen_local = set()
+    todo = [t]
     while todo:
-        t = todo.pop()
-        k = t.get_id()
-        if k in seen:
+        u = todo.pop()
+        ku = u.get_id()
+        if ku in seen_local:
             continue
-        seen.add(k)
-        if z3.is_app(t):
-            if t.num_args() == 1 and t.decl().name() in UF_TABLES and ("uf", t.decl().name()) not in seen:
-                seen.add(("uf", t.decl().name()))
-                f, vals = UF_TABLES[t.decl().name()]
-                out.extend(f(z3.IntVal(k)) == v for k, v in enumerate(vals))
-            if z3.is_select(t):
-                a = t.arg(0)
+        seen_local.add(ku)
+        sub = _RI_CACHE.get(ku) if ku != k else None
+        if sub is not None:
+            out.extend(sub[1])
+            continue
+        if z3.is_app(u):
+            if u.num_args() == 1 and u.decl().name() in UF_TABLES:
+                out.append(("uf", u.decl().name()))
+            if z3.is_select(u):
+                a = u.arg(0)
                 if z3.is_const(a) and a.decl().name() in RANGED:
-                    lo, hi = RANGED[a.decl().name()]
-                    out.append(z3.And(t >= lo, t <= hi))
-            todo.extend(t.children())
-        elif z3.is_quantifier(t):
-            todo.append(t.body())
+                    out.append(("sel", u))
+            todo.extend(u.children())
+        elif z3.is_quantifier(u):
+            todo.append(u.body())
+    _RI_CACHE[k] = (t, out)
+    return out
+
+
+def range_instances(terms):
+    """Instances of the element-range axioms for every `Select(arr, i)` over a registered array, and the ground axioms of every
+    uninterpreted table function, occurring in `terms`."""
+    out, seen = [], set()
+    for t in terms:
+        for kind, x in _instances_of(t):
+            if kind == "uf":
+                if ("uf", x) in seen:
+                    continue
+                seen.add(("uf", x))
+                f, vals = UF_TABLES[x]
+                out.extend(f(z3.IntVal(k)) == v for k, v in enumerate(vals))
+            else:
+                kx = x.get_id()
+                if kx in seen:
+                    continue
+                seen.add(kx)
+                lo, hi = RANGED[x.arg(0).decl().name()]
+                out.append(z3.And(x >= lo, x <= hi))
     return out
 
 
@@ -159,7 +192,7 @@ def _solve_z3(smt2, timeout_ms):
     t0 = time.time()
     try:
         _WN += 1
-        if _WCTX is None or _WN % 200 == 0:
+        if _WCTX is None or _WN % 16 == 0:
             _WCTX = _z3.Context()
         ctx = _WCTX
         s = _z3.Solver(ctx=ctx)
